@@ -103,3 +103,56 @@ Qed.
 
 Lemma inventory_nonempty : pkg_vars <> [] /\ audited_mutable <> [] /\ audited_all <> [].
 Proof. repeat split; discriminate. Qed.
+
+(* ---- address-escaping variables: their addresses, the flows of those addresses and every explicit
+   write through a pointer that could reach them are exactly the audited ones ---- *)
+Definition eqb_ss (a b : string * string) : bool := String.eqb (fst a) (fst b) && String.eqb (snd a) (snd b).
+Definition eqb_ssn (a b : string * (string * N)) : bool :=
+  String.eqb (fst a) (fst b) && String.eqb (fst (snd a)) (fst (snd b)) && N.eqb (snd (snd a)) (snd (snd b)).
+Definition sub {A} (eqb : A -> A -> bool) (l1 l2 : list A) : bool := forallb (fun x => existsb (eqb x) l2) l1.
+
+Lemma sub_In {A} (eqb : A -> A -> bool) (Heq : forall a b, eqb a b = true -> a = b) l1 l2 :
+  sub eqb l1 l2 = true -> forall x, In x l1 -> In x l2.
+Proof.
+  unfold sub. intros H x Hin. rewrite forallb_forall in H. specialize (H x Hin).
+  apply existsb_exists in H as (y & Hy & He). apply Heq in He. subst. exact Hy.
+Qed.
+
+Lemma eqb_ss_eq a b : eqb_ss a b = true -> a = b.
+Proof.
+  destruct a as [a1 a2], b as [b1 b2]. unfold eqb_ss. cbn. intros H. apply andb_prop in H as [H1 H2].
+  apply String.eqb_eq in H1. apply String.eqb_eq in H2. subst. reflexivity.
+Qed.
+
+Lemma eqb_ssn_eq a b : eqb_ssn a b = true -> a = b.
+Proof.
+  destruct a as [a1 [a2 a3]], b as [b1 [b2 b3]]. unfold eqb_ssn. cbn. intros H.
+  apply andb_prop in H as [H H3]. apply andb_prop in H as [H1 H2].
+  apply String.eqb_eq in H1. apply String.eqb_eq in H2. apply N.eqb_eq in H3. subst. reflexivity.
+Qed.
+
+Lemma str_eqb_eq (a b : string) : String.eqb a b = true -> a = b.
+Proof. apply String.eqb_eq. Qed.
+
+Lemma escaping_checked :
+  sub String.eqb addr_escaping audited_escaping && sub String.eqb audited_escaping addr_escaping
+  && sub eqb_ss addr_flows audited_addr_flows && sub eqb_ss audited_addr_flows addr_flows
+  && sub eqb_ssn deref_writes audited_deref_writes && sub eqb_ssn audited_deref_writes deref_writes = true.
+Proof. vm_compute. reflexivity. Qed.
+
+Lemma escaping_pointees_audited :
+  (forall v, In v addr_escaping <-> In v audited_escaping) /\
+  (forall f, In f addr_flows <-> In f audited_addr_flows) /\
+  (forall w, In w deref_writes <-> In w audited_deref_writes).
+Proof.
+  pose proof escaping_checked as H.
+  apply andb_prop in H as [H H6]. apply andb_prop in H as [H H5]. apply andb_prop in H as [H H4].
+  apply andb_prop in H as [H H3]. apply andb_prop in H as [H1 H2].
+  split; [|split]; intros x; split.
+  - apply (sub_In _ str_eqb_eq _ _ H1).
+  - apply (sub_In _ str_eqb_eq _ _ H2).
+  - apply (sub_In _ eqb_ss_eq _ _ H3).
+  - apply (sub_In _ eqb_ss_eq _ _ H4).
+  - apply (sub_In _ eqb_ssn_eq _ _ H5).
+  - apply (sub_In _ eqb_ssn_eq _ _ H6).
+Qed.
